@@ -10,6 +10,12 @@ EXTENDS Lifetimes, Json
 RepFams == {"alloc", "alloc_cstr", "alloc_iter_mut", "alloc_try_with", "stats", "any_stats",
             "vec_into_slice", "vec_keep", "mutvec_into_boxed_slice", "mutvec_keep"}
 NoFams == {}
+AllPaths == {"p1", "p2", "p3"}
+P1Only == {"p1"}
+AliasFams == {"alloc"}
+\* openers of the two-handle interplay run: alias handles (by_value copies, as_scope / as_mut_scope borrows, claim guards,
+\* pool guards) and the frames opened through them or through the original
+AliasOpenOps == {"AsScope:", "AsMutScope:", "ByValue:", "Claim:", "Scoped:scoped", "Guard:", "PoolGet:"}
 LiteFams == {"alloc", "stats", "mutvec_keep"}
 ArenaRoots == {"bump", "pool"}
 ASSUME PrintT(<<"FAMS", AllFams>>)
